@@ -17,7 +17,7 @@ const DATA: u32 = 0x430200;
 const CELL: u32 = 0x430300;
 const STACK: u32 = 0x4f0000;
 
-pub const ALPHABET: [&str; 26] = [
+pub const ALPHABET: [&str; 27] = [
     "cmd:pause",
     "cmd:start",
     "cmd:stop",
@@ -26,6 +26,7 @@ pub const ALPHABET: [&str; 26] = [
     "u8:430301:33",
     "u8:200000:1",
     "u8:fee000:ff",
+    "u8:ffffd0:f0",
     "ioport:1:f0",
     "ioport:b:a5",
     "ioport:5:3c",
@@ -58,9 +59,16 @@ pub struct Proto {
     pub p1ddr: u8,
     pub ram_cell: u8,
     pub vec_cell: u8,
+    /// port 1 data latch (value last stored into P1DR by a u8 line)
+    pub p1latch: u8,
 }
 
 impl Proto {
+    /// what a CPU read of P1DR returns: latch where output, pins where input
+    pub fn p1dr_read(&self) -> u8 {
+        (self.p1latch & self.p1ddr) | (self.pins[0] & !self.p1ddr)
+    }
+
     pub fn line(&mut self, l: &str) {
         if self.stopped {
             return; // lines after a stop are moot
@@ -79,6 +87,8 @@ impl Proto {
                         self.cells[(a - CELL) as usize] = v;
                     } else if a == 0xfee000 {
                         self.p1ddr = v;
+                    } else if a == 0xffffd0 {
+                        self.p1latch = v;
                     } else if a == 0xffd000 {
                         self.ram_cell = v;
                     } else if a == 0xff {
@@ -151,6 +161,7 @@ pub struct Obs {
     pub p1ddr: u8,
     pub ram_cell: u8,
     pub vec_cell: u8,
+    pub p1dr: u8,
     /// cumulative state count seen at the top of each loop iteration
     pub progress: Vec<usize>,
     pub result: String,
@@ -191,6 +202,7 @@ pub fn run_batches(rig: &mut Rig, batches: &[Vec<&str>], at: &[usize], horizon: 
         p1ddr: rig.cpu.bus.io_registrs1[0],
         ram_cell: rig.cpu.bus.memory[(0xffd000 - 0xffbf20) as usize],
         vec_cell: rig.cpu.bus.exception_handling_vector[0xff],
+        p1dr: rig.cpu.bus.read(0xffffd0).unwrap_or(0xee),
         progress,
         result: match r {
             Ok(()) => "ok".into(),
@@ -219,6 +231,9 @@ pub fn judge(seq: &[&str], batches: &[Vec<&str>], at: &[usize], o: &Obs, horizon
     }
     if o.p1ddr != p.p1ddr {
         return Some(format!("P1DDR {:02x}, reference {:02x}", o.p1ddr, p.p1ddr));
+    }
+    if o.p1dr != p.p1dr_read() {
+        return Some(format!("P1DR reads {:02x}; after these lines (pins {:02x}, DDR {:02x}, byte stored into DR {:02x}) it must read {:02x}", o.p1dr, p.pins[0], p.p1ddr, p.p1latch, p.p1dr_read()));
     }
     if o.ram_cell != p.ram_cell || o.vec_cell != p.vec_cell {
         return Some(format!("bytes stored by u8 lines in on-chip RAM / vector area: {:02x}/{:02x}, reference {:02x}/{:02x}", o.ram_cell, o.vec_cell, p.ram_cell, p.vec_cell));
@@ -526,7 +541,7 @@ pub fn c18(tier: Tier, _seed: u64) -> Prop {
             "every OS-thread schedule of the receive worker appears to run() as some partition of the line sequence into per-iteration batches (the only shared object is an mpsc channel drained by try_iter), so enumerating partitions covers the schedules as far as the property can observe them".into(),
             "the instant at which a line takes effect (which loop iteration) is timing, not constrained; pause edges are checked with one instruction of slack".into(),
             "the TCP part samples OS schedules (inputs are enumerated); non-UTF-8 input bytes are outside the alphabet".into(),
-            "bounds: sequences <= 3 over 26 lines, <= 5 over a 6-line alphabet (quick); <= 4 / <= 7 (thorough)".into(),
+            "bounds: sequences <= 3 over 27 lines, <= 5 over a 6-line alphabet (quick); <= 4 / <= 7 (thorough)".into(),
         ],
         units,
         extra: Box::new(|m| {
